@@ -935,3 +935,60 @@ argparser.add_argument("-a", "--alpha",
                        help="weight of the positional dissimilarity")""")
 B("C20", "value-through-local", CLI,
   "            result_list.append(float(gamma.gamma))", "            gamma_value = float(gamma.gamma)\n            result_list.append(gamma_value)")
+
+# =============================================================================================
+# C18
+# =============================================================================================
+REGRESSIONS.append(dict(prop="C18", id="regression/F12-csv-without-newline", patch="ab3bf94.diff", rule="R-C18-2"))
+M("C18", "writer-swaps-start-end", CONT,
+  "                writer.writerow([annotator, unit.annotation,\n                                 unit.segment.start, unit.segment.end])",
+  "                writer.writerow([annotator, unit.annotation,\n                                 unit.segment.end, unit.segment.start])", "R-C18-1")
+M("C18", "reader-label-from-column-0", CONT,
+  "                    continuum.add(row[0], seg, row[1])", "                    continuum.add(row[1], seg, row[0])", "R-C18-1")
+M("C18", "delimiter-not-forwarded-to-writer", CONT,
+  "            writer = csv.writer(csv_file, delimiter=delimiter)", "            writer = csv.writer(csv_file)", "R-C18-1")
+M("C18", "elan-ignores-selected-tiers", CONT,
+  """        for tier_name in eaf.get_tier_names():
+            if selected_tiers is not None and tier_name not in selected_tiers:
+                continue
+            for start, end, value""",
+  """        for tier_name in eaf.get_tier_names():
+            for start, end, value""", "R-C18-4")
+M("C18", "textgrid-label-in-tier-mode", CONT,
+  """                    self.add(annotator,
+                             Segment(interval.minTime, interval.maxTime),
+                             tier_name)""",
+  """                    self.add(annotator,
+                             Segment(interval.minTime, interval.maxTime),
+                             interval.mark)""", "R-C18-4")
+M("C18", "discard-flag-inverted", CONT,
+  "                    if discard_invalid_rows:\n                        print(f\"Discarded invalid segment : {str(e)}\")",
+  "                    if not discard_invalid_rows:\n                        print(f\"Discarded invalid segment : {str(e)}\")", "R-C18-3")
+M("C18", "elan-times-rounded", CONT,
+  "                    self.add(annotator, Segment(start, end), value)", "                    self.add(annotator, Segment(round(start), round(end)), value)", "R-C18-4")
+M("C18", "elan-skips-single-char-values", CONT,
+  """            for start, end, value in eaf.get_annotation_data_for_tier(tier_name):
+                if use_tier_as_annotation:""",
+  """            for start, end, value in eaf.get_annotation_data_for_tier(tier_name):
+                if len(value) < 2:
+                    continue
+                if use_tier_as_annotation:""", "R-C18-4")
+M("C18", "rttm-annotator-constant", CONT,
+  "            continuum.add_annotation(uri, annot)", "            continuum.add_annotation(\"rttm\", annot)", "R-C18-5")
+M("C18", "reader-int-times", CONT,
+  "                seg = Segment(float(row[2]), float(row[3]))", "                seg = Segment(int(float(row[2])), int(float(row[3])))", "R-C18-1")
+M("C18", "invalid-rows-always-swallowed", CONT,
+  """                    if discard_invalid_rows:
+                        print(f"Discarded invalid segment : {str(e)}")
+                    else:
+                        raise e""",
+  """                    print(f"Discarded invalid segment : {str(e)}")""", "R-C18-3")
+B("C18", "writer-row-as-tuple-with-locals", CONT,
+  "                writer.writerow([annotator, unit.annotation,\n                                 unit.segment.start, unit.segment.end])",
+  "                writer.writerow((annotator, unit.annotation, unit.segment.start,\n                                 unit.segment.end))")
+B("C18", "reader-inline-segment", CONT,
+  """                seg = Segment(float(row[2]), float(row[3]))
+                try:
+                    continuum.add(row[0], seg, row[1])""",
+  """                try:
+                    continuum.add(row[0], Segment(float(row[2]), float(row[3])), row[1])""")
